@@ -533,17 +533,60 @@ package core
 //@   ensures length: wr(out) == cnt(in, len(in))
 //@   ensures elems: forall j :: 0 <= j && j < len(in) && (tSignal(in[j]) || (forall m :: 0 <= m && m < n0 ==> pathExists(in[j], old(h.keys[m])))) ==> out[cnt(in, j)] == in[j]
 
+// ---- C01: distinct() ------------------------------------------------------------------
+// Signals pass in place. Every other row has a key: the NUL-joined Go-syntax renderings
+// (fmt "%#v") of the values of the listed fields (dkey, spec/distinct.smt2). A row is
+// forwarded exactly when all listed fields exist in it, its key is not empty and no earlier
+// qualifying row had the same key (dseen); forwarded rows keep their order and are the
+// input rows themselves. The temporary store holds exactly the keys seen so far.
+// ASSUMED here: the temporary store handed out by the manager starts empty and accepts
+// every write (scoped contract of Set below); the renderings separate distinct values
+// (spec/distinct.smt2).
+//@ iface github.com/bmeg/grip/kvi.KVInterface.Set@engine/core
+//@   params self key value
+//@   option prelude=kv
+//@   modifies KV.
+//@   ensures nw: kvwrites() == old(kvwrites()) + 1
+//@   ensures ok: result == nil && same(kvdom(), store(old(kvdom()), key, true)) && same(kvvals(), store(old(kvvals()), key, value))
 //@ func (*Distinct).Process$1
 //@   vars out man in g kv t s found i v k
-//@   property C06
-//@   option prelude=trav,json
-//@   option load=gdbi,gripql,jsonpath
+//@   property C01 C06
+//@   option prelude=trav,json,kv,distinct
+//@   option load=gdbi,gripql,jsonpath,kvi
 //@   nopanic
+//@   let F = backing(g.vals)
+//@   let fo = soff(g.vals)
+//@   let n0 = len(g.vals)
 //@   requires man: man != nil
-//@   requires fresh: rd(in) == 0 && !closed(out) && in != out && out != nil && in != nil
-//@   requires recv: g != nil
+//@   requires fresh: rd(in) == 0 && wr(out) == 0 && !closed(out) && in != out && out != nil && in != nil
+//@   requires recv: g != nil && soff(g.vals) >= 0 && len(g.vals) >= 0
 //@   requires items: forall j :: 0 <= j && j < len(in) ==> in[j] != nil
-//@   loop 1 invariant open: !closed(out) && 0 <= rd(in) && rd(in) <= len(in)
+//@   requires emptykv: forall key:Str :: !kvhas(key)
+//@   axiom s0: forall key:Str :: !dseen(0, key)
+//@   axiom sS: forall key:Str, k :: 0 <= k ==> (dseen(k + 1, key) <==> (dseen(k, key) || (!tSignal(in[k]) && dfound(in[k], F, fo, n0) && strlen(dkey(in[k], F, fo, n0)) > 0 && dkey(in[k], F, fo, n0) == key)))
+//@   axiom c0: cnt(in, 0) == 0
+//@   axiom cS: forall k :: 0 <= k ==> cnt(in, k + 1) == cnt(in, k) + ite(tSignal(in[k]) || (dfound(in[k], F, fo, n0) && strlen(dkey(in[k], F, fo, n0)) > 0 && !dseen(k, dkey(in[k], F, fo, n0))), 1, 0)
+//@   loop 1 invariant pos: 0 <= rd(in) && rd(in) <= len(in) && !closed(out) && kv != nil
+//@   loop 1 invariant frame: backing(g.vals) == F && soff(g.vals) == fo && len(g.vals) == n0
+//@   loop 1 invariant kvinv: forall key:Str :: kvhas(key) <==> dseen(rd(in), key)
+//@   loop 1 invariant sent: wr(out) == cnt(in, rd(in))
+//@   loop 1 invariant mono: forall j :: 0 <= j && j <= rd(in) ==> cnt(in, j) <= cnt(in, rd(in))
+//@   loop 1 invariant elems: forall j :: 0 <= j && j < rd(in) && (tSignal(in[j]) || (dfound(in[j], F, fo, n0) && strlen(dkey(in[j], F, fo, n0)) > 0 && !dseen(j, dkey(in[j], F, fo, n0)))) ==> out[cnt(in, j)] == in[j]
+//@   loop 2 invariant pos: 0 < rd(in) && rd(in) <= len(in) && !closed(out) && kv != nil && t == in[rd(in) - 1] && !tSignal(t) && rangeindex < n0 &&
+//@       len(s) == n0 && soff(s) == 0 && sref(s) != sref(g.vals)
+//@   loop 2 invariant frame: backing(g.vals) == F && soff(g.vals) == fo && len(g.vals) == n0
+//@   loop 2 invariant parts: forall m :: 0 <= m && m <= rangeindex ==> s[m] == dpart(t, g.vals[m])
+//@   loop 2 invariant zeros: forall m :: rangeindex < m && m < n0 ==> s[m] == ""
+//@   loop 2 invariant found: found <==> (forall m :: 0 <= m && m <= rangeindex ==> pathExists(t, g.vals[m]))
+//@   loop 2 invariant kvinv: forall key:Str :: kvhas(key) <==> dseen(rd(in) - 1, key)
+//@   loop 2 invariant sent: wr(out) == cnt(in, rd(in) - 1)
+//@   loop 2 invariant mono: forall j :: 0 <= j && j <= rd(in) - 1 ==> cnt(in, j) <= cnt(in, rd(in) - 1)
+//@   loop 2 invariant elems: forall j :: 0 <= j && j < rd(in) - 1 && (tSignal(in[j]) || (dfound(in[j], F, fo, n0) && strlen(dkey(in[j], F, fo, n0)) > 0 && !dseen(j, dkey(in[j], F, fo, n0)))) ==> out[cnt(in, j)] == in[j]
+//@   ensures closed: closed(out)
+//@   ensures drained: rd(in) == len(in)
+//@   ensures length: wr(out) == cnt(in, len(in))
+//@   ensures elems: forall j :: 0 <= j && j < len(in) && (tSignal(in[j]) || (dfound(in[j], F, fo, n0) && strlen(dkey(in[j], F, fo, n0)) > 0 && !dseen(j, dkey(in[j], F, fo, n0)))) ==> out[cnt(in, j)] == in[j]
+//@   ensures store: forall key:Str :: kvhas(key) <==> dseen(len(in), key)
 
 //@ func (*Marker).Process$1
 //@   vars out in m t
